@@ -259,6 +259,19 @@ def run(ctx):
         sig = calls_to(ja, "processor_registry::ProcessorRegistry::signal_shutdown_all")
         tk = [(bb, t) for bb, t in ja.calls() if callee_key(t["callee"]) in ("std::mem::take", "core::mem::take")]
         jn = [(bb, t) for bb, t in ja.calls() if t["callee"].get("method") == "join" and "JoinHandle" in callee_key(t["callee"])]
+        if not jn:
+            # `handles.into_iter().try_for_each(JoinHandle::join)` / `.for_each(|h| .. h.join() ..)`: the adaptor call is the join site
+            for bb, t in ja.calls():
+                if t["callee"].get("method") in ("try_for_each", "for_each") and not ja.blocks[bb].cleanup:
+                    fi = [a for a in t["args"] if a.get("k") == "const" and strip_generics(a.get("fndef") or "").endswith("JoinHandle::join")]
+                    if fi:
+                        jn.append((bb, t))
+            if not jn:
+                from ..analysis import element_ops
+                for o in element_ops(prog, ja, lambda tt: tt["callee"].get("method") == "join" and "JoinHandle" in callee_key(tt["callee"])):
+                    if o["ok"] and o["form"].startswith("closure->") and o["in"] is ja:
+                        rc = [(bb, t) for bb, t in ja.calls() if t["args"] and o["src"] is not None and t["args"][0] is o["src"]]
+                        jn.extend(rc[:1])
         ok = len(st) == 1 and len(sig) == 1 and len(tk) == 1 and len(jn) == 1
         det = f"store {len(st)}, signal {len(sig)}, take {len(tk)}, join {len(jn)}"
         if ok:
